@@ -14,6 +14,7 @@ from .core import JAR, LIB, ROOT, SPEC, Ctx, MachineryError, pin_env
 REGISTRY = {
     "C01": "joinmeet",
     "C02": "joinmeet",
+    "C03": "repr",
     "C04": "collections",
     "C20": "kernels",
     "C05": "diagram",
